@@ -54,6 +54,27 @@ def cases(tier, rng):
         out.append(("(rename-rule %d %s)" % (rng.choice([0, 1, 12]), rrule(rng)), "rule"))
         ts = [atom(rng.choice(["p", "go"]))] + [rterm(rng, 2) for _ in range(rng.randint(0, 4))]
         out.append(("(make-query (%s))" % " ".join(ts), "query"))
+    # clause fetch (get_rule) from a knowledge base: facts whose variables sit only inside lists / nested complex
+    # terms / function terms, ground facts, rules; fetched at several counters and indices
+    def fact_shapes(rng):
+        A, B = V(rng), V(rng)
+        return rng.choice([
+            cplx("p", lst([A, B])), cplx("p", lst([ANON], A)), cplx("p", lst([atom("a")], A)),
+            cplx("p", cplx("f", A), atom("b")), cplx("p", cplx("f", cplx("g", A))), cplx("p", lst([cplx("f", A)])),
+            cplx("p", lst([lst([A])])), cplx("p", atom("a"), integer(1)), cplx("p", lst([atom("a"), atom("b")])),
+            cplx("p", A, A), cplx("p", fn("add", A, integer(1))), cplx("p", EMPTY, lst([EMPTY], B)),
+            cplx("p", *[rterm(rng, 2) for _ in range(rng.randint(1, 3))])])
+    gn = 400 if tier == "quick" else 8000
+    for _ in range(gn):
+        k = rng.randint(1, 3)
+        rules = []
+        for _ in range(k):
+            h = fact_shapes(rng)
+            rules.append(rule(h, "gnil" if rng.random() < 0.7 else rgoal(rng, 1)))
+        # all heads get the arity of the first so that they share a predicate
+        ar = len(parse(rules[0])[1]) - 2
+        rules = [r for r in rules if len(parse(r)[1]) - 2 == ar]
+        out.append(("(get-rule %d %d (kb %s))" % (rng.choice([0, 0, 7, 50]), rng.randrange(len(rules)), " ".join(rules)), "fetch"))
     out.append(("(rename-goal 0 gnil)", "malformed"))
     out.append(("(rename-goal 0 %s)" % call(atom("notcomplex")), "malformed"))
     out.append(("(make-query (%s))" % var(0, "$X"), "malformed"))
@@ -66,7 +87,8 @@ def cases(tier, rng):
 RULE = ("every term of the 119-term unification universe and random terms (depth <= 3: atoms, numbers, $_, [], variables with "
         "6 names and stale ids, complex terms, lists with tail variable / $_ tail, function terms, nested empty lists), goals "
         "(calls, built-ins, !/fail/nl, nested and/or/not/time) and rules, renamed from several counter values; queries through "
-        "make_query. Oracle on the implementation's own results (python twin of Proofs/RenameProofs definitions): erasing ids "
+        "make_query; clause fetch (get_rule) from knowledge bases of 1-3 clauses whose variables sit only inside lists, nested "
+        "complex terms or function terms, at several counters. Oracle on the implementation's own results (python twin of Proofs/RenameProofs definitions): erasing ids "
         "gives back the input with ids erased; same name <-> same id; every id is above the old counter and at most the new "
         "one. Non-trivial = at least two distinct names and one repeated name.")
 
@@ -98,6 +120,10 @@ def relations(cases, impl):
         if r is None or res in ("panic", "diverged"): why = "renaming did not return a value: " + res
         else:
             if tag == "term": inp, ctr0, got, ctr1 = c[2], int(c[1]), r[0], int(r[1])
+            elif tag == "fetch":
+                inp, ctr0 = c[3][1 + int(c[2])], int(c[1])
+                if r[0] != "ok": why = "clause fetch failed"
+                else: got, ctr1 = r[1][0], int(r[1][1])
             elif tag == "query":
                 inp, ctr0 = ["call", ["c"] + c[1]], 0
                 if r[0] != "ok": why = "make_query failed"
